@@ -125,7 +125,7 @@ def main():
         ],
         "checks": checks,
         "not_applicable": na,
-        "notes": "All checks are exhaustive bounded explorations of the real implementation compiled from /repo's working tree; see DESIGN.md.",
+        "notes": "All checks are exhaustive bounded explorations of the real implementation compiled from /repo's working tree; see DESIGN.md. Known findings (genuine defects recorded rather than repaired) and repaired defects are listed in /verif/known_findings.json ('known' / 'fixed'); a check prints one KNOWN-FINDING line per listed class it meets and exits 0, any other violation exits 1.",
     }
     json.dump(man, open(os.path.join(ROOT, "MANIFEST.json"), "w"), indent=1)
     print("checks:", [c["property_id"] for c in checks], "not_applicable:", len(na))
